@@ -359,7 +359,7 @@ def generate(prop, verif_seed, idx, tier="quick", cls=None):
     sig = W.ATOMS[:n_atoms]
     nw = 2**n_atoms
     if cls is None:
-        cls = g.choices(["incremental", "revision", "mixed", "two_priors"], weights=[30, 30, 25, 15])[0]
+        cls = g.choices(["incremental", "revision", "mixed", "two_priors", "rebind"], weights=[26, 26, 21, 13, 14])[0]
     priors = []
     psigs = []
     for pn in range(2 if cls == "two_priors" else 1):
@@ -406,10 +406,34 @@ def generate(prop, verif_seed, idx, tier="quick", cls=None):
         ever[m] = set(live[m])
     n_ops = g.randint(3, 12)
     last_fixed = {}
+    last_crev = {}
+    if cls == "rebind":
+        # query -> change the model under the same indices -> the same query again:
+        # anything memoised per model / per index set must not answer for the changed model
+        m = 0
+        msig = psigs[0]
+        if not live[m]:
+            ops.append({"op": "add", "model": m, "idx": 1, "cond": _gen_cond(g, msig)})
+            live[m].add(1)
+            ever[m].add(1)
+        q = {"op": "crev", "model": m, "gpz": g.random() < 0.7, "use_model": g.random() < 0.85}
+        ids = sorted(live[m])
+        if g.random() < 0.25:
+            q["fixed_minus"] = {str(g.choice(ids)): g.choice([0, 1, 2, 3])}
+        ops.append(dict(q))
+        for _ in range(g.randint(1, 2)):
+            j = g.choice(sorted(live[m]))
+            ops.append({"op": "remove", "model": m, "idx": j})
+            if g.random() < 0.3:
+                ops.append({"op": "crev", "model": m, "gpz": q["gpz"], "use_model": q["use_model"]})
+            ops.append({"op": "add", "model": m, "idx": j, "cond": _gen_cond(g, msig)})
+        ops.append(dict(q))
+        ops.append({"op": "compile_check", "model": m})
+        n_ops = g.randint(0, 3)
     for _ in range(n_ops):
         m = g.randrange(n_models)
         r = g.random()
-        w_inc = {"incremental": 0.7, "revision": 0.25, "mixed": 0.5, "two_priors": 0.5}[cls]
+        w_inc = {"incremental": 0.7, "revision": 0.25, "mixed": 0.5, "two_priors": 0.5, "rebind": 0.5}[cls]
         if r < w_inc:
             if live[m] and g.random() < 0.4:
                 idx = g.choice(sorted(live[m])) if g.random() < 0.9 else g.randint(1, 8)
@@ -434,6 +458,17 @@ def generate(prop, verif_seed, idx, tier="quick", cls=None):
         else:
             op = {"op": "crev", "model": m, "gpz": g.random() < 0.6, "use_model": g.random() < 0.6}
             ids = sorted(live[m])
+            if m in last_crev and g.random() < 0.35:
+                # the same question again (settings of the previous c_revision on this model), now on
+                # whatever the model has become: state memoised per model must not answer for it
+                prev = last_crev[m]
+                op = {k: v for k, v in prev.items() if k not in ("fixed_minus", "fixed_plus")}
+                for k in ("fixed_minus", "fixed_plus"):
+                    if prev.get(k) and all(int(x) in live[m] for x in prev[k]):
+                        op[k] = dict(prev[k])
+                ops.append(op)
+                last_crev[m] = op
+                continue
             if ids and g.random() < 0.45:
                 if m in last_fixed and g.random() < 0.5 and set(last_fixed[m]) <= set(ids):
                     keys = last_fixed[m]  # same fixed indices, other values
@@ -445,6 +480,7 @@ def generate(prop, verif_seed, idx, tier="quick", cls=None):
                 keys = g.sample(ids, 1)
                 op["fixed_plus"] = {str(k): g.choice([0, 0, 1, 2]) for k in keys}
             ops.append(op)
+            last_crev[m] = op
     return {"property": prop, "seed": sseed, "idx": scen_idx, "class": cls, "knobs": {}, "sig": sig, "priors": priors, "ops": ops, "faults": []}
 
 
